@@ -300,10 +300,10 @@ static J run(const J& c)
         };
         auto do_request = [&](int t) -> bool {
             long before = g.steps_done[t].load();
-            if (!wait_until([&] { return g.at[t].load() == BeforeRequest; }, 5000))
+            if (!wait_until([&] { return g.at[t].load() == BeforeRequest; }, 20000))
                 return false;
             grant(t);
-            return wait_until([&] { return g.steps_done[t].load() > before; }, 5000);
+            return wait_until([&] { return g.steps_done[t].load() > before; }, 20000);
         };
         for (std::size_t k = 0; k < steps.size() && fail.empty() && !unreal; k++)
         {
@@ -367,17 +367,17 @@ static J run(const J& c)
                 if (ok && !unreal)
                 {
                     grant(t);
-                    ok = wait_until([&] { return g.steps_done[t].load() > before; }, 5000);
+                    ok = wait_until([&] { return g.steps_done[t].load() > before; }, 20000);
                 }
             }
             else if (a == "SyncEnter")
             {
                 // the flush is optional in the specification: the thread may already have returned
-                ok = wait_until([&] { int x = g.at[t].load(); return (x == AtSyncEnter && g.used[t].load() > g.grants[t].load()) || x == Released || x == Finished || x == BeforeRequest; }, 5000);
+                ok = wait_until([&] { int x = g.at[t].load(); return (x == AtSyncEnter && g.used[t].load() > g.grants[t].load()) || x == Released || x == Finished || x == BeforeRequest; }, 20000);
                 if (ok && g.at[t].load() == AtSyncEnter)
                 {
                     grant(t);
-                    ok = wait_until([&] { return g.steps_done[t].load() > before; }, 5000);
+                    ok = wait_until([&] { return g.steps_done[t].load() > before; }, 20000);
                 }
             }
             else if (a == "Release")
@@ -395,7 +395,7 @@ static J run(const J& c)
             }
             if (!ok)
             {
-                fail = "step " + a + "(" + std::to_string(t) + ") of the behaviour did not happen within 5 s (thread is at " + std::to_string(g.at[t].load()) + ")";
+                fail = "step " + a + "(" + std::to_string(t) + ") of the behaviour did not happen within 20 s (thread is at " + std::to_string(g.at[t].load()) + ")";
                 failstep = static_cast<long>(k);
                 break;
             }
